@@ -34,7 +34,7 @@ func main() {
 	defer c.Finish()
 	worker = common.NewWorker()
 	defer worker.Close()
-	c.Res.Rule = "name cases: byte strings (all 256 single bytes, each byte between two letters, all pairs and (thorough: all, quick: sampled) triples of a 30-symbol hostile alphabet, keywords, random strings); distinct = distinct byte string; non-trivial = escaping changes the string (names), contains % or outer white space (unescape), lexes as one Name (lexer). Document cases: seeded abstract documents (2-5 schemas: objects with 1-9 primitive / $ref / array / inline-object properties and a required list of any length, array / enum / primitive definitions, acyclic references; 1-4 path+method endpoints with path / query / header / body parameters and 1-3 responses) rendered as OpenAPI 2 JSON, OpenAPI 3 JSON, XSD, or CREATE TABLE DDL (postgres / mysql / spanner), with plain, hostile (\" = @ ~ . : + $ & blanks non-ASCII ...) or keyword / builtin names; one case = one document imported twice and compiled; non-trivial = the document has at least one property"
+	c.Res.Rule = "name cases: byte strings (all 256 single bytes, each byte between two letters, all pairs and (thorough: all, quick: sampled) triples of a 30-symbol hostile alphabet, keywords, random strings); distinct = distinct byte string; non-trivial = escaping changes the string (names), contains % or outer white space (unescape), lexes as one Name (lexer). Document cases: seeded abstract documents (2-5 schemas: objects with 1-9 primitive / $ref / array / inline-object properties and a required list of any length, array / enum / primitive definitions, acyclic references; 1-4 path+method endpoints with path / query / header / body parameters and 1-3 responses) rendered as OpenAPI 2 JSON, OpenAPI 3 JSON, XSD, or CREATE TABLE DDL (postgres / mysql / spanner), with plain, hostile (\" = @ ~ . : + $ & blanks non-ASCII ...) or keyword / builtin names; one case = one document imported and compiled, then imported again (Go-writer path: 16 imports in one process; the first media-type documents also once in each of 16 fresh processes; arr.ai path: 2-4 imports), every text byte-identical; non-trivial = the document has at least one property. Type x format stream: every OpenAPI type (string, integer, number, boolean) with no format, with each of the 10 formats the importer's table lists for any type and with 12 unlisted formats (uint32, uint64, int16, int8, decimal, email, password, hostname, ipv4, time, currency, x-custom), each pair as a property, an array-item property, a top-level definition, a top-level array definition, a path / query / header parameter and a (plain / array) response (OpenAPI 2: all 92 pairs every run; OpenAPI 3: 8 pairs per quick run rotating with the seed, all in thorough). Media-type stream: 1-3 paths x 1-3 methods, body in 2-4 request media types (operation- or document-level consumes / several requestBody.content entries), 1-3 response media types, 1-4 responses per operation incl. default with $ref / array / primitive / no schema. XSD builtins stream: elements and attributes over 18 builtin types"
 	if c.Replay != "" {
 		b, err := os.ReadFile(c.Replay)
 		if err != nil {
